@@ -244,6 +244,42 @@ fn run_suite<S: ShortGroupSignatureScheme>(em: &mut Emitter, base: &mut Rng, sui
                     json!({"suite": suite, "request": v}),
                 );
             }
+            // general form: D = C - Σ_hidden Y_i·m_i must not be a public multiple of the blinding generator
+            // (0 = no blinding; s·f for a transmitted response s and f ∈ {1, 1/c, 1/(1+c), 1/(c-1), …} = a response
+            // whose nonce is the secret itself or absent)
+            {
+                let ctx = &v["blind_signature_context"];
+                let c = sc_from_hex(ctx["challenge"].as_str().unwrap_or("")).unwrap_or(Scalar::ZERO);
+                let resp: Vec<Scalar> = ctx["proofs"].as_array().map(|a| a.iter().filter_map(|x| x.as_str().and_then(sc_from_hex)).collect()).unwrap_or_default();
+                let mut factors = vec![Scalar::ONE, -Scalar::ONE];
+                for d in [c, -c, c + Scalar::ONE, c - Scalar::ONE, -(c + Scalar::ONE), Scalar::ONE - c] {
+                    if let Some(i) = Option::<Scalar>::from(d.invert()) {
+                        factors.push(i);
+                    }
+                }
+                let mut kappas = vec![Scalar::ZERO];
+                for r in &resp {
+                    for f in &factors {
+                        kappas.push(*r * *f);
+                    }
+                }
+                let hidden_ix: Vec<usize> = hidden.iter().map(|h| labels.iter().position(|l| l == h).unwrap()).collect();
+                let sum_true: G1Projective = hidden_ix.iter().map(|i| gens[*i] * all[*i].to_scalar()).sum();
+                for (wi, wrong) in hidden_ix.iter().enumerate() {
+                    let sum_wrong = sum_true + gens[*wrong] * Scalar::ONE; // the same vector with one value + 1
+                    let (d0, d1) = (c0 - sum_true, c0 - sum_wrong);
+                    for (ki, kp) in kappas.iter().enumerate() {
+                        let g = G1Projective::GENERATOR * *kp;
+                        if (d0 == g) != (d1 == g) && !(suite == "bbs" && ki == 0) {
+                            em.violation(
+                                "c16:blind-request-tests-guess",
+                                format!("{}: commitment minus the candidate's contribution is a publicly computable multiple of the generator (response {} of the context, factor {}): a guess of hidden claim {} can be tested", suite, if ki == 0 { 0 } else { (ki - 1) / factors.len() }, if ki == 0 { 0 } else { (ki - 1) % factors.len() }, wi),
+                                json!({"suite": suite, "request": v, "hidden": hidden}),
+                            );
+                        }
+                    }
+                }
+            }
             // two requests for the same values
             if let Ok((req2, _)) = BlindCredentialRequest::<S>::new(&public, &hc) {
                 let v2 = serde_json::to_value(&req2).unwrap();
